@@ -125,7 +125,7 @@ fn test_sync(c: &SyncCase) -> TestResult {
             }
         }
     }
-    Ok(Outcome::new(positions >= 3).label_if(!c.foreign_aborts.is_empty(), "foreign-aborts").label_if(c.abort_len > 0 || c.abort_pad > 0, "abort-with-body-or-padding"))
+    Ok(Outcome::new(positions >= 3).label_if(!c.foreign_aborts.is_empty(), "foreign-aborts").label_if(c.abort_len > 0 || c.abort_pad > 0, "abort-with-body-or-padding").label_if(usize::from(c.abort_len) + usize::from(c.abort_pad) > 65535, "abort-record-tail>65535"))
 }
 
 fn sync_strategy() -> BoxedStrategy<SyncCase> {
@@ -141,8 +141,9 @@ fn sync_strategy() -> BoxedStrategy<SyncCase> {
                     b
                 }),
                 traffic::preamble_spec(3, 60),
-                prop_oneof![3 => Just(0u16), 1 => 1u16..=30],
-                prop_oneof![3 => Just(0u8), 1 => any::<u8>()],
+                // "any body/padding on the abort record itself": up to the largest record
+                prop_oneof![12 => Just(0u16), 4 => 1u16..=30, 1 => prop_oneof![Just(65535u16), Just(65528), 65281u16..=65535, 256u16..=65535]],
+                prop_oneof![3 => Just(0u8), 1 => any::<u8>(), 1 => prop_oneof![Just(255u8), Just(1), Just(7), Just(8)]],
                 proptest::collection::vec((any::<u16>(), traffic::id_delta()), 0..3),
                 c02::buf_pick(),
                 gen::chunking(),
@@ -203,7 +204,7 @@ fn test_async(c: &ConnCase) -> TestResult {
 }
 
 fn async_strategy() -> BoxedStrategy<ConnCase> {
-    let abort = (any::<u16>(), prop_oneof![3 => Just(0u16), 1 => 1u16..=24], prop_oneof![3 => Just(0u8), 1 => any::<u8>()]).prop_map(|(after, body_len, pad)| AbortSpec { after, body_len, pad });
+    let abort = (any::<u16>(), prop_oneof![12 => Just(0u16), 4 => 1u16..=24, 1 => prop_oneof![Just(65535u16), Just(65528), 65281u16..=65535, 256u16..=65535]], prop_oneof![3 => Just(0u8), 1 => any::<u8>(), 1 => prop_oneof![Just(255u8), Just(1), Just(7), Just(8)]]).prop_map(|(after, body_len, pad)| AbortSpec { after, body_len, pad });
     (conn::conn_case(3, false, Just(false).boxed()), proptest::collection::vec((prop::option::weighted(0.7, abort), any::<u8>()), 3))
         .prop_map(|(mut c, aborts)| {
             for (q, (a, bias)) in c.reqs.iter_mut().zip(aborts) {
